@@ -1,6 +1,6 @@
 #!/bin/bash
 # runs every property's thorough command once, cheapest first; one summary line per property
-for p in C07 C09 C15 C08 C14 C19 C13 C06 C17 C02 C05 C20 C12 C03 C01 C04 C16; do
+for p in ${PROPS:-C07 C09 C15 C08 C14 C19 C13 C06 C17 C02 C05 C20 C12 C16 C01 C03 C04}; do
   t0=$(date +%s)
   ./check $p --tier thorough > thorough_$p.log 2>&1; rc=$?
   t1=$(date +%s)
